@@ -91,18 +91,21 @@ Record st := mkSt {
   s_tier : list (Z * list positive);
   s_real : list (positive * list positive);
   s_ready : bool;
-  s_fuel : bool   (* sticky: some fuel-bounded loop of the model ran out (never on explored inputs) *) }.
+  s_fuel : bool;  (* sticky: some fuel-bounded loop of the model ran out (never on explored inputs) *)
+  s_failed : list positive  (* failedRebuilds (fix D1): HyperNodes whose last rebuildCache failed *) }.
 
 Record env := mkEnv { e_nodes : list positive; e_sel : list (positive * list positive) }.
 
-Definition init_st : st := mkSt [] [] [] true false.
+Definition init_st : st := mkSt [] [] [] true false [].
 Definition placeholder : info := mkInfo 0 [] None [] false.
 
-Definition set_hn (s : st) (h : list (positive * info)) : st := mkSt h (s_tier s) (s_real s) (s_ready s) (s_fuel s).
-Definition set_tier (s : st) (t : list (Z * list positive)) : st := mkSt (s_hn s) t (s_real s) (s_ready s) (s_fuel s).
-Definition set_real (s : st) (r : list (positive * list positive)) : st := mkSt (s_hn s) (s_tier s) r (s_ready s) (s_fuel s).
-Definition set_ready (s : st) (b : bool) : st := mkSt (s_hn s) (s_tier s) (s_real s) b (s_fuel s).
-Definition set_fuel (s : st) : st := mkSt (s_hn s) (s_tier s) (s_real s) (s_ready s) true.
+Definition set_hn (s : st) (h : list (positive * info)) : st := mkSt h (s_tier s) (s_real s) (s_ready s) (s_fuel s) (s_failed s).
+Definition set_tier (s : st) (t : list (Z * list positive)) : st := mkSt (s_hn s) t (s_real s) (s_ready s) (s_fuel s) (s_failed s).
+Definition set_real (s : st) (r : list (positive * list positive)) : st := mkSt (s_hn s) (s_tier s) r (s_ready s) (s_fuel s) (s_failed s).
+Definition set_ready (s : st) (b : bool) : st := mkSt (s_hn s) (s_tier s) (s_real s) b (s_fuel s) (s_failed s).
+Definition set_failed (s : st) (l : list positive) : st :=
+  mkSt (s_hn s) (s_tier s) (s_real s) (s_ready s) (s_fuel s) l.
+Definition set_fuel (s : st) : st := mkSt (s_hn s) (s_tier s) (s_real s) (s_ready s) true (s_failed s).
 
 Definition hchildren (ms : list member) : list positive :=
   fold_left (fun acc m => match m with MHyper h => pins h acc | _ => acc end) ms [].
@@ -278,46 +281,85 @@ Definition update_parent (s : st) (o : hobj) : st * list positive :=
 Definition claimers (hn : list (positive * info)) (c exclude : positive) : list positive :=
   map fst (filter (fun ki => negb (Pos.eqb (fst ki) exclude) && claims (i_members (snd ki)) c) hn).
 
-(* rebuild a list of names, stopping at the first error *)
-Definition rebuild_all (e : env) (s : st) (l : list positive) : st * bool :=
-  fold_left (fun (acc : st * bool) k => let '(s0, e0) := acc in
-               if (e0 : bool) then acc else rebuild_cache e s0 k) l (s, false).
+(* The code under test carries three repairs (commits "fix:" in /repo, see
+   docs/notes/C14.md): D1 failedRebuilds / refreshReady, D3 deleteHyperNode
+   drops the deleted name from every Children set, D4 a placeholder entry is
+   not "known".  [fx = true] is the code as it is now, [fx = false] the code
+   before the repairs (kept for the _refuted witnesses). *)
+Definition mark_failed (fx : bool) (s : st) (k : positive) : st :=
+  set_ready (if fx then set_failed s (pins k (s_failed s)) else s) false.
+Definition unfail (fx : bool) (s : st) (k : positive) : st :=
+  if fx then set_failed s (pdel k (s_failed s)) else s.
 
-Definition upd (e : env) (s : st) (o : hobj) : st * bool :=
+(* rebuild a list of names, stopping at the first error *)
+Definition rebuild_all (fx : bool) (e : env) (s : st) (l : list positive) : st * bool :=
+  fold_left (fun (acc : st * bool) k => let '(s0, e0) := acc in
+               if (e0 : bool) then acc else
+               let '(s1, e1) := rebuild_cache e s0 k in
+               if (e1 : bool) then (mark_failed fx s1 k, true) else (unfail fx s1 k, false)) l (s, false).
+
+(* refreshReady: retry the failed rebuilds (ascending names); ready iff none is left *)
+Definition refresh_ready (fx : bool) (e : env) (s : st) : st :=
+  if fx then
+    let '(s', stop) :=
+      fold_left (fun (acc : st * bool) k => let '(s0, e0) := acc in
+                   if (e0 : bool) then acc else
+                   match aget k (s_hn s0) with
+                   | None => (unfail fx s0 k, false)
+                   | Some _ => let '(s1, e1) := rebuild_cache e s0 k in
+                               if (e1 : bool) then (set_ready s1 false, true) else (unfail fx s1 k, false)
+                   end) (s_failed s) (s, false) in
+    if (stop : bool) then s' else set_ready s' true
+  else set_ready s true.
+
+(* the entry carries an object that was delivered (it is in its tier set) *)
+Definition known (s : st) (nm : positive) : bool :=
+  match aget nm (s_hn s) with
+  | Some i => match zget (i_tier i) (s_tier s) with Some l => pmem nm l | None => false end
+  | None => false
+  end.
+
+Definition upd_gen (fx : bool) (e : env) (s : st) (o : hobj) : st * bool :=
   let nm := o_name o in
   let old := aget nm (s_hn s) in
-  let tierChanged := match old with Some i => negb (Z.eqb (i_tier i) (o_tier o)) | None => true end in
-  let membersChanged := match old with Some i => negb (members_eqb (i_members i) (o_members o)) | None => true end in
   let exists_ := match old with Some _ => true | None => false end in
-  if negb (membersChanged || tierChanged) && exists_ && negb (has_sel (o_members o)) then (s, false)
+  let kn := if fx then known s nm else exists_ in
+  let tierChanged := match old with Some i => if kn then negb (Z.eqb (i_tier i) (o_tier o)) else true | None => true end in
+  let membersChanged := match old with Some i => if kn then negb (members_eqb (i_members i) (o_members o)) else true | None => true end in
+  if negb (membersChanged || tierChanged) && kn && negb (has_sel (o_members o)) then (s, false)
   else
     let '(s1, freed) := if membersChanged then update_parent s o else (s, []) in
-    let s2 := if negb exists_ || tierChanged then update_tier_set s1 o else s1 in
+    let s2 := if negb kn || tierChanged then update_tier_set s1 o else s1 in
     let s3 := match aget nm (s_hn s2) with
               | Some _ => upd_info s2 nm (with_obj (o_tier o) (o_members o))
               | None => set_hn s2 (aset nm (mkInfo (o_tier o) (o_members o) None [] false) (s_hn s2))
               end in
     if membersChanged || has_sel (o_members o) then
       let '(s4, err) := rebuild_cache e s3 nm in
-      if err then (set_ready s4 false, true) else
+      if err then (mark_failed fx s4 nm, true) else
       let '(s5, err5) :=
         fold_left (fun (acc : st * bool) fr => let '(s0, e0) := acc in
-                     if (e0 : bool) then acc else rebuild_all e s0 (claimers (s_hn s0) fr nm))
-                  freed (s4, false) in
-      if err5 then (set_ready s5 false, true) else (set_ready s5 true, false)
+                     if (e0 : bool) then acc else rebuild_all fx e s0 (claimers (s_hn s0) fr nm))
+                  freed (unfail fx s4 nm, false) in
+      if err5 then (s5, true) else (refresh_ready fx e s5, false)
     else (s3, false).
 
 (* ---------- DeleteHyperNode ---------- *)
-Definition del (e : env) (s : st) (nm : positive) : st * bool :=
+Definition drop_child_everywhere (s : st) (nm : positive) : st :=
+  set_hn s (map (fun ki => (fst ki, with_children (pdel nm (i_children (snd ki))) (snd ki))) (s_hn s)).
+
+Definition del_gen (fx : bool) (e : env) (s : st) (nm : positive) : st * bool :=
   let s1 := upd_info s nm (with_deleting true) in
   let '(s2, err) := rebuild_cache e s1 nm in
-  if err then (set_ready s2 false, true) else
-  let s3 := set_ready s2 true in
+  if err then (mark_failed fx s2 nm, true) else
+  let s3 := unfail fx s2 nm in
   let s4 := fold_left reset_parent (stored_children s3 nm) s3 in
-  match aget nm (s_hn s4) with
-  | None => (s4, false)
-  | Some i => (remove_from_tier (set_hn s4 (adel nm (s_hn s4))) nm (i_tier i), false)
-  end.
+  let s5 := match aget nm (s_hn s4) with
+            | None => s4
+            | Some i => let s' := remove_from_tier (set_hn s4 (adel nm (s_hn s4))) nm (i_tier i) in
+                        if fx then drop_child_everywhere s' nm else s'
+            end in
+  (refresh_ready fx e s5, false).
 
 (* ---------- node events: cache.triggerUpdateHyperNode ---------- *)
 Definition is_sel_leaf (ms : list member) : bool :=
@@ -332,7 +374,7 @@ Definition node_matches (e : env) (n : positive) (ms : list member) : bool :=
                     | _ => false
                     end) ms.
 
-Definition trigger (e : env) (s : st) (n : positive) : st * bool :=
+Definition trigger_gen (fx : bool) (e : env) (s : st) (n : positive) : st * bool :=
   let leaves := filter (fun ki => is_sel_leaf (i_members (snd ki))) (s_hn s) in
   fold_left (fun (acc : st * bool) ki =>
     let '(s0, e0) := acc in
@@ -341,22 +383,28 @@ Definition trigger (e : env) (s : st) (n : positive) : st * bool :=
     match aget (fst ki) (s_hn s0) with
     | None => acc
     | Some i => if node_matches e n (i_members i)
-                then upd e s0 (mkObj (fst ki) (i_tier i) (i_members i)) else acc
+                then upd_gen fx e s0 (mkObj (fst ki) (i_tier i) (i_members i)) else acc
     end) leaves (s, false).
 
 Inductive event :=
 | EUpd (o : hobj) | EDel (nm : positive) | ENodeAdd (n : positive) | ENodeDel (n : positive).
 
-Definition step (es : env * st) (ev : event) : env * st :=
+Definition step_gen (fx : bool) (es : env * st) (ev : event) : env * st :=
   let '(e, s) := es in
   match ev with
-  | EUpd o => (e, fst (upd e s o))
-  | EDel nm => (e, fst (del e s nm))
-  | ENodeAdd n => let e' := mkEnv (pins n (e_nodes e)) (e_sel e) in (e', fst (trigger e' s n))
-  | ENodeDel n => let e' := mkEnv (pdel n (e_nodes e)) (e_sel e) in (e', fst (trigger e' s n))
+  | EUpd o => (e, fst (upd_gen fx e s o))
+  | EDel nm => (e, fst (del_gen fx e s nm))
+  | ENodeAdd n => let e' := mkEnv (pins n (e_nodes e)) (e_sel e) in (e', fst (trigger_gen fx e' s n))
+  | ENodeDel n => let e' := mkEnv (pdel n (e_nodes e)) (e_sel e) in (e', fst (trigger_gen fx e' s n))
   end.
 
+Definition upd := upd_gen true.
+Definition del := del_gen true.
+Definition trigger := trigger_gen true.
+Definition step := step_gen true.
 Definition run (e : env) (evs : list event) : env * st := fold_left step evs (e, init_st).
+(* the code before the repairs *)
+Definition run_prefix (e : env) (evs : list event) : env * st := fold_left (step_gen false) evs (e, init_st).
 
 (* from scratch: a fresh view fed only the given objects, in the given order *)
 Definition scratch (e : env) (objs : list hobj) : st := snd (run e (map EUpd objs)).
